@@ -134,6 +134,12 @@ static std::string integrity_fail(const uint8_t *S, size_t n) {
 		for (auto &e : ext) if (e.type == 0xcc) symlink_bits = true;
 		if (level == 0 && S[0] > 22u + S[21] && S[24 + S[21]] == '9') symlink_bits = true;
 		if (!path_source && !symlink_bits) return "directory entry without a path";
+		// a would-be symbolic link is "name|target": without a '|' in any name source there is no link to speak of, and
+		// without a path source no directory either
+		bool bar = false;
+		if (level <= 1) for (size_t i = 0; i < S[21]; ++i) if (S[22 + i] == '|') bar = true;
+		for (auto &e : ext) if (e.type == 0x01) for (size_t i = 0; i < e.data_len; ++i) if (S[e.data_off + i] == '|') bar = true;
+		if (!path_source && !bar) return "directory entry without a path";
 	}
 	return "";
 }
